@@ -323,6 +323,9 @@ func DecodeBox(startPos uint64, r io.Reader) (Box, error) {
 	if err != nil {
 		return nil, fmt.Errorf("decode %s pos %d: %w", h.Name, startPos, err)
 	}
+	if err = checkDecodedSize(h, b); err != nil {
+		return nil, fmt.Errorf("decode %s pos %d: %w", h.Name, startPos, err)
+	}
 
 	return b, nil
 }
@@ -355,6 +358,9 @@ func DecodeBoxLazyMdat(startPos uint64, r io.ReadSeeker) (Box, error) {
 		}
 	}
 	if err != nil {
+		return nil, fmt.Errorf("decode box %q: %w", h.Name, err)
+	}
+	if err = checkDecodedSize(h, b); err != nil {
 		return nil, fmt.Errorf("decode box %q: %w", h.Name, err)
 	}
 
